@@ -263,6 +263,8 @@ def run(ctx):
             ctx.sample({'symmetry': sym, 'groups': groups, 'x': describe(x)})
     bad_idx = common.run_cases(ctx, 'fuse', IMPORTS, '', exprs, shard=40)
     tie_broken = []
+    import tie_prims
+    tie_broken += tie_prims.tie(ctx)
     if bad_idx is None:
         tie_broken.append('cases.v (fuse/unfuse model vs implementation) did not evaluate')
     elif bad_idx:
